@@ -194,7 +194,7 @@ pub fn run_c15<H: HB>(tier: Tier) -> Outcome {
     let (cases, viol) = par_each(seqs.len() * 2, th, |i| {
         let d = i % 2 == 1;
         let s = &seqs[i / 2];
-        let mk_case = |e: String| Case { prop: prop.into(), hasher: H::NAME.into(), double: d, root: Root::FromVec(s.clone()), ops: vec![], last: None, probe: Some("serde-arbitrary-input".into()), detail: e, universe: vec![0, 1, 2], aux: None, trail: vec![] };
+        let mk_case = |e: String| Case { prop: prop.into(), hasher: H::NAME.into(), double: d, root: Root::FromVec(s.clone()), ops: vec![], last: None, probe: Some("serde-arbitrary-input".into()), detail: e, universe: vec![0, 1, 2], aux: None, trail: vec![], params: vec![] };
         crate::crash::set_case(|| mk_case(String::new()));
         let r = if d { arbitrary_input::<DPQ<H>>(s, &acfg) } else { arbitrary_input::<PQ<H>>(s, &acfg) };
         r.map_err(mk_case)
